@@ -8,10 +8,10 @@ VERIF="$(cd "$(dirname "$0")/.." && pwd)"
 W="$(mktemp -d /dev/shm/mut.XXXXXX)"
 trap 'rm -rf "$W"' EXIT
 mkdir -p "$W/repo" "$W/out"
-(cd /repo && git ls-files | grep -v '^assets/' | cpio -pdm "$W/repo" 2>/dev/null)
+rsync -a --exclude .git --exclude assets --exclude seed /repo/ "$W/repo/"
 case "$PATCH" in
-  -R:*) (cd /repo && git show "${PATCH#-R:}") | (cd "$W/repo" && patch -R -p1 -s) || { echo "$NAME: PATCH-FAILED"; exit 3; } ;;
-  *) (cd "$W/repo" && patch -p1 -s < "$PATCH") || { echo "$NAME: PATCH-FAILED"; exit 3; } ;;
+  -R:*) for cm in $(echo "${PATCH#-R:}" | tr ',' ' '); do (cd /repo && git show "$cm") | (cd "$W/repo" && git apply -R --whitespace=nowarn -) || { echo "$NAME: PATCH-FAILED"; exit 3; }; done ;;
+  *) (cd "$W/repo" && git apply --whitespace=nowarn "$PATCH") || { echo "$NAME: PATCH-FAILED"; exit 3; } ;;
 esac
 for ID in "$@"; do
   out="$(VERIF_REPO="$W/repo" VERIF_OUT="$W/out" "$VERIF/check.sh" "$ID" "${TIER:-quick}" 2>&1)"
